@@ -119,6 +119,16 @@ func semanticErrors() []declCase {
 	add("object ref to enum", "object Foo {\n  field a object:E\n}\n\nenum E {\n  option A\n}\n", true)
 	add("enum ref to object", "object Foo {\n  field a enum:Bar\n}\n\nobject Bar {\n}\n", true)
 	add("enum rule unknown value", "object Foo {\n  field a enum:E {\n    rules.in = [\"NOPE\"]\n  }\n}\n\nenum E {\n  option A\n}\n", true)
+	add("oneof with an optional scalar member", "oneof Ch {\n  option a ? string\n  option b string\n}\n", false)
+	add("oneof with an array member", "oneof Ch {\n  option a array:string\n}\n", false)
+	add("oneof with a map member", "oneof Ch {\n  option a map:string\n}\n", false)
+	add("service without name", "service {\n  basePath = \"/foo\"\n}\n", true)
+	add("entity status filter unknown", "entity Foo {\n  key fooId key:id62 {\n    primary = true\n  }\n  status ACTIVE\n  query.defaultStatusFilter = [\"NOPE\"]\n}\n", false)
+	add("entity duplicate summary", "entity Foo {\n  key fooId key:id62 {\n    primary = true\n  }\n  status ACTIVE\n  summary A {\n    field x string\n  }\n  summary A {\n    field y string\n  }\n}\n", false)
+	add("map without item type", "object Foo {\n  field a map\n}\n", true)
+	add("array without item type", "object Foo {\n  field a array\n}\n", true)
+	add("field without type", "object Foo {\n  field a\n}\n", true)
+	add("service with options and no methods", "service Foo {\n  basePath = \"/foo\"\n  options.audience = [\"x\"]\n}\n", false)
 	add("integer without format", "object Foo {\n  field a integer\n}\n", true)
 	add("float without format", "object Foo {\n  field a float\n}\n", true)
 	add("integer bad format", "object Foo {\n  field a integer:INT7\n}\n", true)
